@@ -5,7 +5,7 @@
 
 package imports
 
-//@ property C19: matchTag, matchTags, MatchFile, matchOS, ShouldBuild, ScanDir, scanFiles
+//@ property C19: matchTag, matchTags, MatchFile, matchOS, ShouldBuild, ScanDir, scanFiles, ScanFiles
 //@ bounded C19: TestVerifBoundedShouldBuild
 
 // ---- vocabulary of property C19 (Go's build-constraint rules) ----
@@ -79,7 +79,7 @@ package imports
 
 // ---- C18: the import reader (read.go) ----
 // Ghost input (see /verif/specs/io.spec): gIn[0..gLen) is the input, gPos the read position.
-//@ property C18: scanFiles, newImportReader, isIdent, (*importReader).syntaxError, (*importReader).readByte, (*importReader).peekByte, (*importReader).nextByte, (*importReader).readKeyword, (*importReader).readIdent, (*importReader).readString, (*importReader).readImport, ReadImports, ReadComments
+//@ property C18: scanFiles, newImportReader, isIdent, (*importReader).syntaxError, (*importReader).readByte, (*importReader).peekByte, (*importReader).nextByte, (*importReader).readKeyword, (*importReader).readIdent, (*importReader).readString, (*importReader).readImport, ReadImports, ReadComments, ScanFiles
 //@ bounded C18: TestVerifBoundedReadImports
 
 //@ extern (*bufio.Reader).ReadByte(b) (c, err)
@@ -333,9 +333,15 @@ package imports
 //@   loop 2: invariant -1 <= rangeindex
 //@   loop 3: invariant -1 <= rangeindex
 //@   ensures err == nil ==> numFiles > 0
+// ScanFiles: the caller's files and tag map go to scanFiles unchanged, marked as explicitly named.
+//@ func ScanFiles
+//@   requires tags != nil
+//@   modifies new H_Int, fd*, gPos, gBase, gLen, gIn, bytes, C_Slice, H_Str, F_S_imports_importReader_*, M*
+//@   at call imports.scanFiles#1: requires sameSlice(files, my_files) && tags == my_tags && explicitFiles
 //@ func ScanDir
 //@   requires tags != nil
 //@   modifies new H_Int, fd*, gPos, gBase, gLen, gIn, bytes, C_Slice, H_Str, F_S_imports_importReader_*, M*
 //@   at call filepath.Join#1: requires isRegularS(typeOfS(info)) && !(len(name) >= 1 && at(name, lo(name)) == '_') && len(name) >= 3 && at(name, hi(name)-3) == '.' && at(name, hi(name)-2) == 'g' && at(name, hi(name)-1) == 'o'
 //@   at call filepath.Join#1: requires tags["*"] || firstIdx(stemOf(name), '_') < 0 || fileOK(tailOf(stemOf(name)), tags, KnownOS, KnownArch)
+//@   at call imports.scanFiles#1: requires tags == my_tags && !explicitFiles
 //@   loop 1: invariant -1 <= rangeindex && (files == nil || fresh(files)) && oldObjectsUnchanged(H_Str)
